@@ -40,3 +40,26 @@ pub fn guard<T>(f: impl FnOnce() -> T) -> Result<T, String> {
             .unwrap_or_else(|| "panic (no message)".into())),
     }
 }
+
+
+/// A copy of `data` at a chosen address alignment (`want` = address modulo 8). Callers hand the real code
+/// slices that live anywhere in memory - inside packets, after tag bytes - so the address of every borrowed
+/// input is part of the schedule; it is set explicitly so that it does not depend on the allocator.
+pub struct Placed {
+    buf: Vec<u8>,
+    off: usize,
+    len: usize,
+}
+
+impl Placed {
+    pub fn new(data: &[u8], want: usize) -> Placed {
+        let mut buf = vec![0xEEu8; data.len() + 16];
+        let base = buf.as_ptr() as usize;
+        let off = (8 + (want % 8) - base % 8) % 8;
+        buf[off..off + data.len()].copy_from_slice(data);
+        Placed { buf, off, len: data.len() }
+    }
+    pub fn get(&self) -> &[u8] {
+        &self.buf[self.off..self.off + self.len]
+    }
+}
